@@ -185,6 +185,40 @@ Theorem C07_page_after_resize_fixed :
 Proof. exact page_after_resize_fixed. Qed.
 Print Assumptions C07_page_after_resize_fixed.
 
+(* A second way the pinned tree let the page index run past the page count, found while the phonetic layouts
+   joined the editor model (OpLayout had to preserve the invariant and could not): under Hsu the list of the one
+   syllable "c" holds its own word and the three words of the alternative reading "ei" - four pages at one
+   per page; on page 3 the layout is switched to Standard (chewing_set_KBType), which has no alternative
+   readings: page 3 of 1.  Replayed on the implementation (Editor::set_syllable_editor), fixed by b605e90. *)
+Definition hsu_key (code uni : N) : keyevent := mkKey code code uni false false false false.
+Definition d_hsu : memdict :=
+  mkMD (bt_insert ([10240], [27425], 10, 0) (bt_insert ([48], [27448], 5, 0) (bt_insert ([48], [35470], 6, 0) (bt_insert ([48], [21769], 7, 0) []))))%N [] [].
+Definition e_hsu : medl := ml_init d_hsu 1%N [] ss_empty 0%N.
+Definition hsu_last_page : list op :=
+  [OpSetOptions (per_page default_options 1); OpKey (hsu_key 27 97); OpKey (hsu_key 48 32); OpKey (hsu_key 57 65533);
+   OpKey (hsu_key 55 65533); OpKey (hsu_key 55 65533); OpKey (hsu_key 55 65533)].
+
+Theorem C07_page_after_layout_switch_pinned_refuted :
+  exists e, run md_ops lay_ops (@conv_single memdict) e_hsu hsu_last_page = Ok e /\
+    ed_page_no e = Some 3 /\ ed_total_page md_ops lay_ops e = Ok (Some 4) /\
+    let e' := ed_set_layout_pinned lay_ops e 0%N in
+    ed_page_no e' = Some 3 /\ ed_total_page md_ops lay_ops e' = Ok (Some 1).
+Proof. vm_compute. eexists. repeat split. Qed.
+Print Assumptions C07_page_after_layout_switch_pinned_refuted.
+
+Theorem C07_page_after_layout_switch_fixed :
+  exists e, run md_ops lay_ops (@conv_single memdict) e_hsu (hsu_last_page ++ [OpLayout 0%N]) = Ok e /\
+    ed_page_no e = Some 0 /\ ed_total_page md_ops lay_ops e = Ok (Some 1).
+Proof. vm_compute. eexists. repeat split. Qed.
+Print Assumptions C07_page_after_layout_switch_fixed.
+
+(* the every-history theorems above quantify over OpLayout too (Model/EditorRun.v), for every layout number, and
+   the instance the correspondence runs - all ten phonetic layouts of Model/Layout.v as the syllable editor -
+   meets their layout hypothesis *)
+Theorem C07_all_layouts_instance : forall x c, so_alt lay_ops (so_clear lay_ops x) c = so_alt lay_ops x c.
+Proof. intros [L st0] c. reflexivity. Qed.
+Print Assumptions C07_all_layouts_instance.
+
 Example C07_nonvacuous :
   md_ok d3 /\ (forall x c, so_alt std_ops (so_clear std_ops x) c = so_alt std_ops x c) /\
   exists e, run md_ops std_ops conv_single (m_init d3 [] ss_empty 0%N) open_third_page = Ok e /\ ed_page_no e = Some 2.
